@@ -387,6 +387,11 @@ def _touch(it, nit, acc):
             o.aug_lag(1.0)
             o.cons_jac
             o.obj_grad
+            # public query methods, asked with the observer's own (looser) tolerances
+            o.locally_infeasible(1e-2, 1e-1)
+            o.is_feasible(1e-1)
+            o.aug_lag_violation(3.0)
+            o.aug_lag_dual()
         except Exception:  # observers must not die on a bad trial point
             pass
 
@@ -404,6 +409,7 @@ def _innermost(e):
 
 
 def execute(world, *, problem=None, solver=None, params=None, reuse_solver=False, x0=None, y0=None, alias=False, keep_callbacks=False):
+    x0_given, y0_given = x0 is not None, y0 is not None
     """Run one solve described by `world`.  `problem`/`solver`/`params` may be
     supplied by history-style profiles that re-use objects across solves."""
     ex = Execution(world)
@@ -426,6 +432,7 @@ def execute(world, *, problem=None, solver=None, params=None, reuse_solver=False
     if problem is None:
         problem = SimProblem(world["problem"], faults=faults)
     problem.log = ex.log
+    problem.clock = clock
     problem.faults = list(faults)
     ex.problem = problem
     if alias:
@@ -550,6 +557,8 @@ def execute(world, *, problem=None, solver=None, params=None, reuse_solver=False
         try:
             sf = world.get("start_form") or {}
             # solve() also takes no start (None = the origin clipped to the box / zero multipliers) and scalars
+            if x0_given or y0_given:
+                sf = {k_: v_ for k_, v_ in sf.items() if not ((k_ == "x" and x0_given) or (k_ == "y" and y0_given))}
             xa = None if sf.get("x") == "none" else (float(x0[0]) if sf.get("x") == "scalar" and x0.size else ex.x0_arg)
             ya = None if sf.get("y") == "none" else (float(y0[0]) if sf.get("y") == "scalar" and y0.size else ex.y0_arg)
             r = solver.solve(xa, ya)
